@@ -85,8 +85,9 @@ namespace detail
 		template<typename genType>
 		GLM_FUNC_QUALIFIER static genType call(genType Source, genType Multiple)
 		{
-			genType Tmp = Source - genType(1);
-			return Tmp + (Multiple - (Tmp % Multiple));
+			// Source - 1 would wrap around for Source == 0
+			genType const Remainder = Source % Multiple;
+			return Remainder == genType(0) ? Source : Source + (Multiple - Remainder);
 		}
 	};
 
